@@ -9,12 +9,14 @@ def run(ctx: Ctx) -> None:
     t2_rot.run_euler(ctx)
     t2_rot.run_homogeneous(ctx)
     t2_rot.run_quaternion(ctx)
+    t2_rot.run_quaternion_log(ctx)
     t2_rot.run_accessors(ctx)
     ctx.floor("T8.accessors", 20)
     ctx.floor("T2.euler-matrix", 49)
     ctx.floor("T2.euler-angles", 2)
     ctx.floor("T6.compose", 100)
     ctx.floor("T6.apply", 30)
+    ctx.floor("T7.quat-log-exp", 6)
     ctx.floor("T7.matrix-to-quat", 4)
 
 
